@@ -5,6 +5,7 @@
 import Pulsar.Syntax
 import Pulsar.Typing
 import Pulsar.Timepb
+import Pulsar.Anyutil
 import Std.Data.HashMap
 open Pulsar Pulsar.Syntax
 
@@ -74,6 +75,23 @@ def step (st : St) (line : String) : St × String :=
          match specUnmarshal S (parseFlags flags) i m0 bs with
          | .ok v => "ok " ++ printVal (repNorm S (v.depth + 1) i v)
          | .err _ => "err" | .panic => "panic"))
+     | _, _, _ => (st, "bad-op"))
+  | ["anyunpack", urlhex, tans, fans, dec] =>
+    -- urlhex: x<hex of url>; tans/fans: m:<hex name> | n | nf | oe ; dec: ok | err | panic
+    let str (h : String) : Option String := (bytesOfHex (h.drop 1).toString).map (fun b => String.ofList (b.map (fun c => Char.ofNat c.toNat)))
+    let look (a : String) : Option Anyutil.Lookup :=
+      match a.splitOn ":" with
+      | ["m", h] => (str ("x" ++ h)).map Anyutil.Lookup.message
+      | ["n"] => some .nonMessage
+      | ["nf"] => some .notFound
+      | ["oe"] => some .otherErr
+      | _ => none
+    (match str urlhex, look tans, look fans with
+     | some url, some t, some f =>
+       let d : String → Bytes → Res Unit := fun _ _ => if dec == "ok" then .ok () else if dec == "err" then .err .other else .panic
+       (st, match Anyutil.unpack ⟨url, []⟩ (fun _ => t) (fun _ => f) d with
+            | .ok u => "ok " ++ u.typeName ++ " " ++ (if u.dynamic then "dyn" else "go")
+            | .err _ => "err" | .panic => "panic")
      | _, _, _ => (st, "bad-op"))
   | ["sov", n] => (st, match n.toNat? with | some n => toString (sov n) | none => "bad-op")
   | ["soz", n] => (st, match n.toNat? with | some n => toString (soz n) | none => "bad-op")
